@@ -171,7 +171,7 @@ def judge_robust(st, sid, case, res, probe, file_ok=False):
     st.validated += 1
     script = 'schema %s %s\n%s' % (sid, SCHEMAS[sid].spec(), case.script())
     if res.status in ('crash', 'hang'):
-        st.violation('%s:%s' % (res.status, engine.sanitizer_summary(res.info)), script, 'a return code', res.info[-1500:])
+        st.violation('%s:%s' % (res.status, engine.sanitizer_summary(res.info)), script, 'a return code', engine.excerpt(res.info))
         return
     lines = res.lines
     rcs = [l for l in lines if l.startswith('r parse')]
